@@ -382,6 +382,7 @@ func (a winAnchors) at(k int) time.Time {
 
 type winTok struct {
 	valid    func(time.Time) bool
+	now      func() bool
 	nbf, exp *time.Time // as reported by the accessors
 }
 
@@ -435,7 +436,7 @@ func init() {
 						return nil, nil
 					}
 				}
-				wt = &winTok{valid: tok.IsValidAt, nbf: tok.NotBefore(), exp: tok.Expiration()}
+				wt = &winTok{valid: tok.IsValidAt, now: tok.IsValidNow, nbf: tok.NotBefore(), exp: tok.Expiration()}
 			} else {
 				var opts []invocation.Option
 				if c.Exp != -1 {
@@ -458,7 +459,7 @@ func init() {
 						return nil, nil
 					}
 				}
-				wt = &winTok{valid: tok.IsValidAt, exp: tok.Expiration()}
+				wt = &winTok{valid: tok.IsValidAt, now: tok.IsValidNow, exp: tok.Expiration()}
 			}
 			cache[key] = wt
 			return wt, nil
@@ -520,6 +521,21 @@ func init() {
 							} else {
 								probes = append(probes, b.Add(-dd))
 							}
+						}
+					}
+				}
+				// "now" is an instant like any other: IsValidNow says what IsValidAt says of the current time
+				{
+					t0 := time.Now()
+					gotNow := wt.now()
+					t1 := time.Now()
+					in := func(p time.Time) bool { return (enbf == nil || p.After(*enbf)) && (eexp == nil || p.Before(*eexp)) }
+					out := func(p time.Time) bool { return (enbf != nil && p.Before(*enbf)) || (eexp != nil && p.After(*eexp)) }
+					if (in(t0) && in(t1)) || (out(t0) && out(t1) && !in(t0) && !in(t1)) {
+						rep.Evaluations++
+						if gotNow != in(t0) {
+							cs := map[string]any{"case": json.RawMessage(raw), "anchors": a.name, "now": t0.Format(time.RFC3339Nano), "nbf": fmtT(enbf), "exp": fmtT(eexp)}
+							rep.violation(cs, fmt.Sprint(in(t0)), fmt.Sprint(gotNow), "IsValidNow disagrees with the token's window at the current time")
 						}
 					}
 				}
